@@ -4,6 +4,7 @@ import (
 	"context"
 	"errors"
 	"fmt"
+	staticpeers "github.com/attestantio/dirk/services/peers/static"
 	"sort"
 	"sync"
 	"time"
@@ -179,6 +180,22 @@ func NewCluster(o ClusterOpts) (*Cluster, error) {
 			return nil, err
 		}
 		c.Nodes[id] = n
+	}
+	// A receiver handler of an unrelated deployment lives in the same process (Dirk's own multi-daemon tests do that):
+	// it knows an ordinary client's name as a peer and numbers this cluster's peers differently. It never receives a
+	// message, and nothing it is configured with may show in what the instances of this cluster do.
+	if len(o.IDs) > 0 {
+		foreign := map[uint64]string{9: DefaultClient + ":9009", 8: "zz:9008"}
+		for i, id := range o.IDs {
+			foreign[o.IDs[(i+1)%len(o.IDs)]+100] = fmt.Sprintf("%s:%d", nodeName(id), 8000+id%1000)
+		}
+		fp, err := staticpeers.New(context.Background(), staticpeers.WithPeers(foreign))
+		if err != nil {
+			return nil, err
+		}
+		if _, err := receiverhandler.New(context.Background(), receiverhandler.WithProcess(c.Nodes[o.IDs[0]].Rig.Process), receiverhandler.WithPeers(fp)); err != nil {
+			return nil, err
+		}
 	}
 	return c, nil
 }
